@@ -110,6 +110,8 @@ pub struct RunStats {
     pub withs: u64,
     pub builds: u64,
     pub two_sided_panics: u64,
+    pub oob_index_writes: u64,
+    pub oob_writes_returned_normally: u64,
     pub probes: [u64; N_PROBES],
     /// (state after step) values visited, for the distinct-state measure
     pub states: Vec<u128>,
@@ -210,6 +212,18 @@ fn valid_cell(l: &Layout, f: usize, i: u32, write: bool) -> bool {
     }
 }
 
+/// C11 histories may also address an array element at or beyond `count`: C11 quantifies over
+/// *any* sequence of operations, and an out-of-range write that returns normally instead of
+/// panicking is an operation like any other (it must not create state that raw_value() does not
+/// carry). C12 histories never do this: what such a call does is C03's statement.
+const OOB_SLACK: u32 = 16;
+fn valid_cell_twin(l: &Layout, f: usize, i: u32) -> bool {
+    match l.fields.get(f) {
+        None => false,
+        Some(fd) => fd.access.writable() && (i < fd.count() || (fd.array.is_some() && i < fd.count() + OOB_SLACK)),
+    }
+}
+
 fn valid_value(l: &Layout, f: usize, v: u128) -> bool {
     let fd = &l.fields[f];
     if v > mask(fd.value_width()) {
@@ -288,6 +302,14 @@ fn probe_write(st: &mut RunStats, l: &Layout, before: u128, f: usize, i: u32, v:
 // C12: refinement against the reference register
 // ------------------------------------------------------------------------------------------------
 
+/// Development switch (never set by the registered commands): SIM_NO_MODEL=1 turns the
+/// refinement oracle off so that the model-free schedule comparison can be shown to have power
+/// on its own (DESIGN.md section 13).
+fn model_oracle_off() -> bool {
+    static OFF: std::sync::OnceLock<bool> = std::sync::OnceLock::new();
+    *OFF.get_or_init(|| std::env::var("SIM_NO_MODEL").map_or(false, |v| v == "1"))
+}
+
 struct Ctx12<'a> {
     l: &'a Layout,
     e: &'a Entry,
@@ -303,6 +325,9 @@ fn viol(class: &str, step: usize, slot: usize, field: Option<usize>, idx: Option
 impl<'a> Ctx12<'a> {
     /// compare every slot with the register: raw value, then every readable field element
     fn check_all(&mut self, step: usize, op: &Op) -> Result<(), Violation> {
+        if model_oracle_off() {
+            return Ok(());
+        }
         let (dst_slot, wfield, widx) = match op {
             Op::Set { slot, f, i, .. } => (Some(*slot), Some(*f), Some(*i)),
             Op::With { dst, f, i, .. } => (Some(*dst), Some(*f), Some(*i)),
@@ -429,7 +454,7 @@ impl<'a> Ctx12<'a> {
                 let new = self.slots[*src].as_ref().unwrap().with(*f, *i as usize, v.0);
                 // "the receiver itself is unchanged"
                 let r = self.slots[*src].as_ref().unwrap().raw();
-                if r != before {
+                if r != before && !model_oracle_off() {
                     return Err(viol("receiver-modified", step, *src, Some(*f), Some(*i), r, before, "with_ changed its receiver".into()));
                 }
                 let after = model::write(before, &l.fields[*f], *i, v.0);
@@ -468,7 +493,7 @@ impl<'a> Ctx12<'a> {
                         self.st.probes[12] += 1;
                     }
                 }
-                if bits != exp {
+                if bits != exp && !model_oracle_off() {
                     return Err(viol("getter-mismatch", step, *slot, Some(*f), Some(*i), bits, exp, "explicit read disagrees with the reference register".into()));
                 }
             }
@@ -478,7 +503,7 @@ impl<'a> Ctx12<'a> {
                 }
                 let r = self.slots[*slot].as_ref().unwrap().raw();
                 self.st.raw_comparisons += 1;
-                if r != self.model[*slot] {
+                if r != self.model[*slot] && !model_oracle_off() {
                     return Err(viol("raw-mismatch", step, *slot, None, None, r, self.model[*slot], "explicit raw_value() disagrees with the reference register".into()));
                 }
             }
@@ -565,6 +590,8 @@ fn merge_stats(a: &mut RunStats, b: &RunStats) {
     a.withs += b.withs;
     a.builds += b.builds;
     a.two_sided_panics += b.two_sided_panics;
+    a.oob_index_writes += b.oob_index_writes;
+    a.oob_writes_returned_normally += b.oob_writes_returned_normally;
     for i in 0..N_PROBES {
         a.probes[i] += b.probes[i];
     }
@@ -744,17 +771,32 @@ fn run_twin(l: &Layout, e: &Entry, case: &Case) -> Outcome {
                 forked[*slot] = false;
             }
             Op::Set { slot, f, i, v } => {
-                if *slot >= n || p[*slot].is_none() || !valid_cell(l, *f, *i, true) || !valid_value(l, *f, v.0) {
+                if *slot >= n || p[*slot].is_none() || !valid_cell_twin(l, *f, *i) || !valid_value(l, *f, v.0) {
                     return Outcome::Invalid;
                 }
-                probe_write(&mut st, l, shadow[*slot], *f, *i, v.0, prev_write);
+                let oob = *i >= l.fields[*f].count();
+                if !oob {
+                    probe_write(&mut st, l, shadow[*slot], *f, *i, v.0, prev_write);
+                } else {
+                    st.oob_index_writes += 1;
+                }
                 let keep_p = p[*slot].as_ref().unwrap().clone_box();
                 let keep_q = q[*slot].as_ref().unwrap().clone_box();
                 let a = guarded(|| p[*slot].as_mut().unwrap().set(*f, *i as usize, v.0));
                 let b = guarded(|| q[*slot].as_mut().unwrap().set(*f, *i as usize, v.0));
                 match (a, b) {
                     (Ok(()), Ok(())) => {
-                        let after = model::write(shadow[*slot], &l.fields[*f], *i, v.0);
+                        // an out-of-range write that did not panic: whatever it did, it is a
+                        // state change as far as the bookkeeping below is concerned
+                        let after = if oob {
+                            st.oob_writes_returned_normally += 1;
+                            guarded(|| p[*slot].as_ref().unwrap().raw()).unwrap_or(!shadow[*slot])
+                        } else {
+                            model::write(shadow[*slot], &l.fields[*f], *i, v.0)
+                        };
+                        if oob {
+                            changed_since_restart[*slot] = true;
+                        }
                         if after != shadow[*slot] {
                             st.state_changing_writes += 1;
                             st.probes[19] += 1;
@@ -780,16 +822,26 @@ fn run_twin(l: &Layout, e: &Entry, case: &Case) -> Outcome {
                 }
             }
             Op::With { src, dst, f, i, v } => {
-                if *src >= n || *dst >= n || p[*src].is_none() || !valid_cell(l, *f, *i, true) || !valid_value(l, *f, v.0) {
+                if *src >= n || *dst >= n || p[*src].is_none() || !valid_cell_twin(l, *f, *i) || !valid_value(l, *f, v.0) {
                     return Outcome::Invalid;
                 }
-                probe_write(&mut st, l, shadow[*src], *f, *i, v.0, prev_write);
+                let oob = *i >= l.fields[*f].count();
+                if !oob {
+                    probe_write(&mut st, l, shadow[*src], *f, *i, v.0, prev_write);
+                } else {
+                    st.oob_index_writes += 1;
+                }
                 let a = guarded(|| p[*src].as_ref().unwrap().with(*f, *i as usize, v.0));
                 let b = guarded(|| q[*src].as_ref().unwrap().with(*f, *i as usize, v.0));
                 match (a, b) {
                     (Ok(a), Ok(b)) => {
-                        let after = model::write(shadow[*src], &l.fields[*f], *i, v.0);
-                        let ch = after != shadow[*src];
+                        let after = if oob {
+                            st.oob_writes_returned_normally += 1;
+                            guarded(|| a.raw()).unwrap_or(!shadow[*src])
+                        } else {
+                            model::write(shadow[*src], &l.fields[*f], *i, v.0)
+                        };
+                        let ch = oob || after != shadow[*src];
                         if ch {
                             st.state_changing_writes += 1;
                             st.probes[19] += 1;
